@@ -41,11 +41,11 @@ class C03(Check):
             'long. The automaton runs on EVERY MuxObservable subscription of the run (10-40 boundaries per program). non-trivial = >= 2 nested key-producing operators or an '
             'empty / single-item source with at least one key-producing operator; distinct = hash of the case')
     RULE += PRELUDE_RULE
-    ASSUMPTIONS = ['no user function raises (item-level errors are C13); an unhandled error closes the boundary',
+    ASSUMPTIONS = ['no user function raises (item-level errors are C13) except, in one family of cases, the function of a key-producing operator, where only the protocol is judged; an unhandled error closes the boundary',
                    'events after a boundary received on_error / on_completed are invisible to the subscriber (RxPY AutoDetachObserver) and are not judged']
     ANCHORS = ['rxsci/data/roll.py', 'rxsci/data/split.py', 'rxsci/data/time_split.py', 'rxsci/operators/group_by.py', 'rxsci/operators/tee_map.py',
                'rxsci/operators/multiplex.py', 'rxsci/state/with_store.py', 'rxsci/mux/muxobservable.py', 'rxsci/mux/muxconnectable.py']
-    REQUIRED_TAGS = ['depth>=3', 'empty-source', 'single-item', 'scale', 'several-streams-on-one-store'] + ['history-fed-more-than-the-judged-stream'] + PRELUDE_TAGS
+    REQUIRED_TAGS = ['depth>=3', 'empty-source', 'single-item', 'scale', 'several-streams-on-one-store', 'a-key-producing-operator-whose-function-raises'] + ['history-fed-more-than-the-judged-stream'] + PRELUDE_TAGS
     REQUIRED_OBSERVED = ['boundary:' + k for k in KINDS] + ['events:create', 'events:next', 'events:completed', 'events:on_completed']
 
     def generate(self, rng, tier, shard, nshards):
@@ -74,6 +74,22 @@ class C03(Check):
                     pr, _ = gen.gen_pipeline(rng, 'i', rng.randint(1, 3), o)
                     streams.append({'prog': pr, 'items': gen.gen_items(rng, n=rng.choice([0, 1, 3, 8, 15]), hi=12, sorted_=True)})
                 yield {'multi': streams, 'oseed': rng.randrange(1 << 30), 'resubscribe': rng.randrange(m)}
+                continue
+            if k % 40 == 24:
+                # the user function of a KEY-PRODUCING operator raises on some records (a split field that is None on a leading
+                # record): whether that ends the stream - the unchanged tree lets the exception escape - or becomes a mux error
+                # is not stated; that no event for a key that is not live is emitted at any boundary is (the errors are dropped
+                # directly behind the operator)
+                items = gen.gen_items(rng, n=rng.choice([1, 3, 8, 20]), hi=12, sorted_=True)
+                bad = sorted(set([items[0]] * (k // 40 % 2) + rng.sample(items, min(len(items), rng.randint(1, 2)))))
+                tail_, _ = gen.gen_pipeline(rng, 'i', rng.randint(0, 2), gen.GenOpts(max_depth=1, allow_progress=False, no_streaming_mutation=True, exclude_ops=('tee_map',)))
+                inner = [['ignore']] + tail_
+                vals = ','.join(str(v) for v in bad)
+                ctx = [['split', 'raise_on:%s:div:%d' % (vals, rng.randint(2, 4)), inner],
+                       ['group_by', 'raise_on:%s:mod:%d' % (vals, rng.randint(2, 4)), inner],
+                       ['time_split', {'active': rng.choice([None, 4]), 'inactive': None, 'closing': 'raise_on:%s:modeq:3:0' % vals, 'include': True}, inner]][(k // 80) % 3]
+                prog = [ctx] if (k // 240) % 2 else [['group_by', 'mod:2', [ctx]]]
+                yield {'prog': prog, 'items': items, 'faulty_ctx': True}
                 continue
             if k % 150 == 9:
                 # scale: windows of 257-400 items, 300-1000 groups, take/batch/lag 257+ on ~700 items
@@ -199,6 +215,10 @@ class C03(Check):
             v = mon.violations[0]
             out.fail('protocol:' + v['kind'], boundary=v['boundary'], key=v['key'], extra=v['extra'], event_index=v['event_index'],
                      n_violations=len(mon.violations), stream_error=repr(snap.err))
+            return out
+        if case.get('faulty_ctx'):
+            out.tags.append('a-key-producing-operator-whose-function-raises')
+            out.observed['runs_where_a_key_function_raised:' + ('stream ended with the error' if snap.err is not None else 'stream went on')] += 1
             return out
         if snap.err is not None:
             # a generated program must not fail - unless the model says it is outside the stated domain
